@@ -62,11 +62,12 @@ type Style struct {
 	TextTricks int  // 0 none; 1 CDATA; 2 numeric references; 3 comments inside text; 4 mixture
 	ExtraNS    bool // declare xs and xsi on the root
 	EmptyTag   bool // <a/> instead of <a></a>
+	DeclareDS  bool // declare xmlns:ds on the root; signatures made for this layout carry no declaration of their own
 	Rng        *rand.Rand
 }
 
 func (s Style) String() string {
-	return fmt.Sprintf("pfx%d/pretty%d/q%c/shuf%v/decl%d/com%v/txt%d/xns%v/empty%v", s.Prefix, s.Pretty, s.Quote, s.Shuffle, s.Decl, s.Comments, s.TextTricks, s.ExtraNS, s.EmptyTag)
+	return fmt.Sprintf("pfx%d/pretty%d/q%c/shuf%v/decl%d/com%v/txt%d/xns%v/empty%v/dsroot%v", s.Prefix, s.Pretty, s.Quote, s.Shuffle, s.Decl, s.Comments, s.TextTricks, s.ExtraNS, s.EmptyTag, s.DeclareDS)
 }
 
 // PlainStyle is the simplest layout.
@@ -75,7 +76,7 @@ func PlainStyle() Style { return Style{Quote: '"', EmptyTag: true} }
 // RandomStyle draws every knob.
 func RandomStyle(r *rand.Rand) Style {
 	s := Style{Prefix: r.IntN(4), Pretty: r.IntN(3), Quote: '"', Shuffle: r.IntN(2) == 0, Decl: r.IntN(4),
-		Comments: r.IntN(3) == 0, TextTricks: r.IntN(5), ExtraNS: r.IntN(2) == 0, EmptyTag: r.IntN(2) == 0, Rng: r}
+		Comments: r.IntN(3) == 0, TextTricks: r.IntN(5), ExtraNS: r.IntN(2) == 0, EmptyTag: r.IntN(2) == 0, DeclareDS: r.IntN(4) == 0, Rng: r}
 	if r.IntN(3) == 0 {
 		s.Quote = '\''
 	}
@@ -240,6 +241,9 @@ func (rd *renderer) elem(n *Node, sc scope, depth int, path []int, isRoot bool) 
 	if isRoot && rd.st.ExtraNS {
 		declare("xs", NSXS)
 		declare("xsi", NSXSI)
+	}
+	if isRoot && rd.st.DeclareDS {
+		declare("ds", NSDS)
 	}
 	p := rd.elemPrefix(n.NS)
 	declare(p, n.NS)
